@@ -459,6 +459,19 @@ impl<'a> Gen<'a> {
 
     fn positions(&self) -> Vec<mantra_dex_std::farm_manager::Position> { self.run.h.all_positions() }
 
+    /// the identifier a position operation names: usually the stored one; now and then a near miss of it — the raw
+    /// identifier without its `u-` / `p-` prefix, the other prefix, a different case — which names NO position and
+    /// must be refused (C08: a position is reached only through its own identifier)
+    fn pos_ident(&mut self, stored: &str) -> String {
+        if !self.r.chance(1, 7) { return stored.to_string(); }
+        let raw = stored.splitn(2, '-').nth(1).unwrap_or(stored).to_string();
+        match self.r.below(4) {
+            0 | 1 => raw,
+            2 => if stored.starts_with("u-") { format!("p-{}", raw) } else { format!("u-{}", raw) },
+            _ => stored.to_uppercase(),
+        }
+    }
+
     pub fn op_expand_position(&mut self) {
         let ps: Vec<_> = self.positions().into_iter().filter(|p| p.open).collect();
         if ps.is_empty() { return self.op_create_position(); }
@@ -468,7 +481,8 @@ impl<'a> Gen<'a> {
         let lp = self.run.h.w.cd(&p.lp_asset.denom);
         let bal = self.run.h.w.balance(&sender, &lp);
         let amt = match self.r.below(4) { 0 => 1 + self.r.below(3) as u128, 1 => bal / 10 + 1, _ => bal / 100 + 1 };
-        self.emit(format!("tx {} {} fm expandpos {}", sender, funds_str(&[coin(amt, lp)]), p.identifier));
+        let ident = self.pos_ident(&p.identifier);
+        self.emit(format!("tx {} {} fm expandpos {}", sender, funds_str(&[coin(amt, lp)]), ident));
     }
 
     pub fn op_close_position(&mut self) {
@@ -481,7 +495,8 @@ impl<'a> Gen<'a> {
         let (d, amt) = match self.r.below(5) { 0 => ("-".to_string(), "-".to_string()), 1 => (self.run.h.w.cd(&p.lp_asset.denom), a.to_string()), 2 => (self.run.h.w.cd(&p.lp_asset.denom), (a / 2).max(1).to_string()), 3 => (self.run.h.w.cd(&p.lp_asset.denom), (a + 1).to_string()), _ => (self.run.h.w.cd(&p.lp_asset.denom), (a / 3 + 1).to_string()) };
         // claim first most of the time (pending rewards block closing)
         if self.r.chance(3, 4) { self.emit(format!("tx {} 0 fm claim -", sender)); }
-        self.emit(format!("tx {} 0 fm closepos {} {} {}", sender, p.identifier, d, amt));
+        let ident = self.pos_ident(&p.identifier);
+        self.emit(format!("tx {} 0 fm closepos {} {} {}", sender, ident, d, amt));
     }
 
     pub fn op_withdraw_position(&mut self) {
@@ -502,7 +517,8 @@ impl<'a> Gen<'a> {
             }
         }
         let em = match self.r.below(6) { 0 | 1 | 2 | 3 => "true", 4 => "false", _ => "-" };
-        self.emit(format!("tx {} 0 fm withdrawpos {} {}", sender, p.identifier, em));
+        let ident = self.pos_ident(&p.identifier);
+        self.emit(format!("tx {} 0 fm withdrawpos {} {}", sender, ident, em));
     }
 
     pub fn op_claim(&mut self) {
@@ -587,7 +603,18 @@ impl<'a> Gen<'a> {
         let rate = f.emission_rate.u128().max(1);
         let amt = match self.r.below(4) { 0 => rate * (1 + self.r.below(5) as u128) + 1, _ => rate * (1 + self.r.below(5) as u128) };
         let ad = self.run.h.w.cd(&f.farm_asset.denom);
-        self.emit(format!("tx {} {} fm expandfarm {} - - {} {} {}", sender, funds_str(&[coin(amt, ad.clone())]), self.run.h.w.cd(&f.lp_denom), ad, amt, f.identifier));
+        // what is attached: usually exactly the declared amount; now and then less / more of the same denom, another
+        // denom, an extra coin, nothing (all to be refused: an expansion adds exactly what was paid in)
+        let funds: Vec<Coin> = match self.r.below(14) {
+            0 => vec![coin(rate.min(amt.saturating_sub(rate)).max(1), ad.clone())],        // one epoch attached, several declared
+            1 => vec![coin(amt + rate, ad.clone())],
+            2 => vec![coin(1, ad.clone())],
+            3 => vec![coin(amt, if ad == "uom" { "uusd" } else { "uom" })],
+            4 => { let mut v = vec![coin(amt, ad.clone()), coin(7, if ad == "uluna" { "uusd" } else { "uluna" })]; v.sort_by(|a, b| a.denom.cmp(&b.denom)); v }
+            5 => vec![],
+            _ => vec![coin(amt, ad.clone())],
+        };
+        self.emit(format!("tx {} {} fm expandfarm {} - - {} {} {}", sender, funds_str(&funds), self.run.h.w.cd(&f.lp_denom), ad, amt, f.identifier));
     }
 
     pub fn op_close_farm(&mut self) {
@@ -839,6 +866,90 @@ impl<'a> Gen<'a> {
         self.emit(format!("tx {} 0 fm claim -", u));
     }
 
+    /// directed scenario for C02 (and C01): EVERY holder of a constant-product pool's LP token redeems everything, so
+    /// that only the permanently locked minimum is left against non-zero reserves; then somebody deposits both assets
+    /// again, at the pool ratio or skewed — the deposit must be priced like any later deposit (≤ its proportional
+    /// share of the supply), never like a first deposit
+    pub fn op_scenario_full_exit_redeposit(&mut self) {
+        let pools = self.pools();
+        let cps: Vec<_> = pools.iter().filter(|p| !p.total_share.amount.is_zero()
+            && matches!(p.pool_info.pool_type, mantra_dex_std::pool_manager::PoolType::ConstantProduct)).collect();
+        if cps.is_empty() { return self.op_provide(); }
+        let p = cps[self.r.below(cps.len() as u64) as usize].clone();
+        let pi = &p.pool_info;
+        let lp = self.run.h.w.cd(&pi.lp_denom);
+        // a few swaps first so that fees accrue to the remaining shares
+        for _ in 0..self.r.below(3) {
+            let oi = self.r.below(2) as usize;
+            let res = pi.assets[oi].amount.u128();
+            let amt = res / 20 + 1;
+            self.emit(format!("tx u1 {} pm swap {} {} - 500000000000000000 -", funds_str(&[coin(amt, pi.assets[oi].denom.clone())]), pi.pool_identifier, pi.assets[1 - oi].denom));
+        }
+        for u in ["u1", "u2", "u3", "u4", "owner", "out"] {
+            let bal = self.run.h.w.balance(u, &lp);
+            if bal > 0 { self.emit(format!("tx {} {} pm withdraw {}", u, funds_str(&[coin(bal, lp.clone())]), pi.pool_identifier)); }
+        }
+        // reserves now (read again: dust may be left)
+        let Some(q) = self.pools().into_iter().find(|x| x.pool_info.pool_identifier == pi.pool_identifier) else { return };
+        let (x, y) = (q.pool_info.assets[0].amount.u128(), q.pool_info.assets[1].amount.u128());
+        let k = 1 + self.r.below(1000) as u128;
+        let (a, b) = match self.r.below(4) {
+            0 => (x.max(1) * k, y.max(1) * k),                         // at the pool ratio
+            1 => (1_000_000, 1_000_000),
+            2 => (x.max(1) * k, y.max(1) * k * 2),                     // skewed
+            _ => (1 + self.r.below(1_000_000_000) as u128, 1 + self.r.below(1_000_000_000) as u128),
+        };
+        let mut funds = vec![coin(a, q.pool_info.assets[0].denom.clone()), coin(b, q.pool_info.assets[1].denom.clone())];
+        funds.sort_by(|a, b| a.denom.cmp(&b.denom));
+        let sender = SENDERS[self.r.below(4) as usize];
+        self.emit(format!("tx {} {} pm provide {} - - - - -", sender, funds_str(&funds), pi.pool_identifier));
+        // … and the depositor leaves again: nobody may take out more than they brought
+        let bal = self.run.h.w.balance(sender, &lp);
+        if bal > 0 && self.r.chance(1, 2) { self.emit(format!("tx {} {} pm withdraw {}", sender, funds_str(&[coin(bal, lp)]), pi.pool_identifier)); }
+    }
+
+    /// directed scenario for C09: a farm whose whole budget has been claimed BEFORE its last epoch is over is no longer
+    /// active; an emergency exit at that moment sends the whole penalty to the fee collector.  One staker, a budget
+    /// that divides evenly over the epochs, claim in the last emitting epoch, then a second position's emergency exit
+    pub fn op_scenario_exhausted_farm_emergency(&mut self) {
+        // an LP token without positions and without farms (so that the single staker takes every epoch in full)
+        let ps = self.positions();
+        let fs = self.farms();
+        let free: Vec<String> = self.run.h.lps.iter().filter(|l| { let real = self.run.h.w.rd(l);
+            !ps.iter().any(|p| p.lp_asset.denom == real) && !fs.iter().any(|f| f.lp_denom == real) }).cloned().collect();
+        if free.is_empty() { return self.op_advance(); }
+        let lp = free[self.r.below(free.len() as u64) as usize].clone();
+        let holders = self.lp_holders(&lp);
+        if holders.is_empty() { return self.op_provide(); }
+        let ua = holders[0];
+        let ub = if holders.len() > 1 { holders[1] } else { holders[0] };
+        let tag = self.r.below(10_000);
+        let cur = self.cur_epoch();
+        let epochs = 2 + self.r.below(3);
+        let rate = 1000 + self.r.below(5000) as u128;
+        let aa = rate * epochs as u128;
+        let asset = coin(aa, "uusdc");
+        let funds = self.farm_fee_funds(&asset);
+        let owner = ["u3", "u4", "owner"][self.r.below(3) as usize];
+        self.emit(format!("tx {} {} fm createfarm {} {} {} uusdc {} xh{}", owner, funds_str(&funds), lp, cur + 1, cur + 1 + epochs, aa, tag));
+        let bal_a = self.run.h.w.balance(ua, &lp);
+        let dur_a = DAY * (30 + self.r.below(300));
+        self.emit(format!("tx {} 1 {} {} fm createpos xha{} {} -", ua, lp, (bal_a / 4).max(1), tag, dur_a));
+        // a second position (same or another user), opened one epoch later so that the first one owns epoch cur+1 alone;
+        // it is the one that leaves through the emergency exit
+        self.emit(format!("advance {}", DAY * 1_000_000_000));
+        let bal_b = self.run.h.w.balance(ub, &lp);
+        let dur_b = DAY * (30 + self.r.below(300));
+        self.emit(format!("tx {} 1 {} {} fm createpos xhb{} {} -", ub, lp, (bal_b / 8).max(1), tag, dur_b));
+        // to the farm's last emitting epoch; both claim everything there (the budget is used up if nothing was lost
+        // to rounding — the single-staker first epoch makes that likely, not certain)
+        self.emit(format!("advance {}", (epochs - 1) * DAY * 1_000_000_000));
+        self.emit(format!("tx {} 0 fm claim -", ua));
+        if ub != ua { self.emit(format!("tx {} 0 fm claim -", ub)); }
+        self.emit(format!("tx {} 0 fm withdrawpos u-xhb{} true", ub, tag));
+        if self.r.chance(1, 2) { self.emit(format!("tx {} 0 fm withdrawpos u-xha{} true", ua, tag)); }
+    }
+
     /// directed scenario for C11 / C09: move the clock to the instant a farm expires (end of its last
     /// epoch + expiration time), one second / one epoch around it, then run an operation that consults
     /// `is_farm_expired` (farm creation on the same LP token = automatic close; expand; emergency exit)
@@ -940,10 +1051,11 @@ pub fn gen_pm_case(r: &mut Rng, id: u64, len: u64, faults: bool, o: &mut Out) {
     g.op_create_pool();
     g.op_create_pool();
     if id % 3 == 0 {
-        // directed: several funded pools, then a route with one hop switched off
+        // directed, in rotation whatever the seed: several funded pools, then a route with one hop switched off /
+        // everybody leaves a constant-product pool and somebody deposits again
         for _ in 0..2 { g.op_create_pool(); }
         for _ in 0..6 { g.op_provide(); }
-        g.op_scenario_disabled_route();
+        if (id / 3) % 2 == 0 { g.op_scenario_disabled_route(); } else { g.op_scenario_full_exit_redeposit(); }
     }
     while g.ops < len {
         match g.r.below(40) {
@@ -956,7 +1068,7 @@ pub fn gen_pm_case(r: &mut Rng, id: u64, len: u64, faults: bool, o: &mut Out) {
             29 | 30 => g.op_pm_config(),
             31 => g.op_own("pm"),
             32 => g.op_donate(),
-            33 => g.op_advance(),
+            33 => if g.r.chance(1, 3) { g.op_scenario_full_exit_redeposit() } else { g.op_advance() },
             34 => g.op_create_position(),
             35 => g.op_withdraw_position(),
             36 | 37 => { g.op_query_misc(); g.ops += 1; }
@@ -983,7 +1095,8 @@ pub fn gen_fm_case(r: &mut Rng, id: u64, len: u64, faults: bool, o: &mut Out) {
     for _ in 0..6 { g.op_provide(); }
     // every second case starts with one directed scenario, in rotation, whatever the seed
     if let Some(k) = scen {
-        match k % 10 {
+        match k % 11 {
+            10 => g.op_scenario_exhausted_farm_emergency(),
             9 => g.op_scenario_interleaved_positions(),
             8 => g.op_scenario_many_farms(),
             7 => g.op_scenario_expand_long_farm(),
@@ -1018,7 +1131,7 @@ pub fn gen_fm_case(r: &mut Rng, id: u64, len: u64, faults: bool, o: &mut Out) {
             40 => if g.r.chance(1, 2) { g.op_scenario_piecewise_close() } else { g.op_advance() },
             41 => match g.r.below(4) { 0 | 1 => g.op_scenario_close_after_claim(), 2 => g.op_scenario_many_farms(), _ => g.op_advance() },
             42 | 43 => { g.op_query_misc(); g.ops += 1; }
-            44 => if g.r.chance(1, 3) { g.op_scenario_interleaved_positions() } else { g.op_query_misc(); g.ops += 1; },
+            44 => match g.r.below(4) { 0 => g.op_scenario_interleaved_positions(), 1 => g.op_scenario_exhausted_farm_emergency(), _ => { g.op_query_misc(); g.ops += 1; } },
             _ => g.op_advance(),
         }
     }
